@@ -48,6 +48,8 @@ pub fn shared(prop: &'static str, seed: u64) -> Vec<Scenario> {
         add(Tier::Quick, format!("close.against.{}", p.clone().reopen().tag()), d_int, 300, 120, Box::new(t_close(pc.clone().reopen(), false)));
         add(Tier::Quick, format!("liq.shallow.{}", pc.clone().partial().reopen().tag()), d_int, 600, 150, Box::new(t_liq(pc.clone().partial().reopen(), 5)));
         add(Tier::Quick, format!("liq.shallow.{}", pc.clone().bad_admin().tag()), d_int, 600, 150, Box::new(t_liq(pc.clone().bad_admin(), 5)));
+        add(Tier::Quick, format!("opp.{}", p.clone().fees().pool_switch().tag()), "as opp..fees; right before the second order the owner re-points the engine at a freshly deployed fee pool", 600, 150, Box::new(t_open2(pc.clone().fees().pool_switch(), false)));
+        add(Tier::Quick, format!("close.against.{}", p.clone().fees().pool_switch().tag()), "as close.against..fees with the fee pool replaced before the close", 300, 120, Box::new(t_close(pc.clone().fees().pool_switch(), false)));
         add(Tier::Quick, format!("liq.shallow.{}", pc.clone().partial().bad_admin().tag()), d_int, 600, 150, Box::new(t_liq(pc.clone().partial().bad_admin(), 5)));
         add(Tier::Quick, format!("two-vamms.{}", p.tag()), "two registered vAMMs: trades, a funding settlement and a liquidation on one, withdraw/close on the other", 600, 150, Box::new(t_two_vamms(pc.clone())));
         // thorough
@@ -118,6 +120,8 @@ pub fn fees(seed: u64) -> Vec<Scenario> {
         add(Tier::Quick, format!("opp.{}", p.tag()), d, 800, 150, Box::new(t_open2(pc.clone(), false)));
         add(Tier::Quick, format!("close.against.{}", p.tag()), d, 400, 150, Box::new(t_close(pc.clone(), false)));
         add(Tier::Quick, format!("close.with.{}", p.tag()), d, 400, 150, Box::new(t_close(pc.clone(), true)));
+        add(Tier::Quick, format!("close.against.{}", p.clone().pool_switch().tag()), "as close.against; before the close the owner re-points the engine at a freshly deployed fee pool, which is the one the toll is owed to from then on", 400, 150, Box::new(t_close(pc.clone().pool_switch(), false)));
+        add(Tier::Quick, format!("opp.{}", p.clone().pool_switch().tag()), "as opp with the fee pool replaced before the second order", 800, 150, Box::new(t_open2(pc.clone().pool_switch(), false)));
         add(Tier::Quick, format!("liq.shallow.{}", p.tag()), d, 400, 150, Box::new(t_liq(pc.clone(), 5)));
         add(Tier::Quick, format!("dep-close.{}", p.tag()), d, 400, 150, Box::new(t_dep_close(pc.clone(), 45)));
         add(Tier::Thorough, format!("opp.{}", p.clone().lev().tag()), d, 1500, 600, Box::new(t_open2(pc.clone().lev(), false)));
@@ -255,6 +259,8 @@ pub fn liq(prop: &'static str, seed: u64) -> Vec<Scenario> {
         add(Tier::Quick, format!("shallow.{}", pc.clone().bad_admin().tag()), d, 600, 150, Box::new(t_liq(pc.clone().bad_admin(), 5)));
         add(Tier::Quick, format!("shallow.{}", pc.clone().partial().bad_admin().tag()), d, 600, 150, Box::new(t_liq(pc.clone().partial().bad_admin(), 5)));
         add(Tier::Quick, format!("boundary.{}", pc.clone().partial().reopen().tag()), d, 600, 150, Box::new(t_liq(pc.clone().partial().reopen(), 7)));
+        add(Tier::Quick, format!("deep.{}", pc.clone().feed_switch().tag()), d, 600, 150, Box::new(t_liq(pc.clone().feed_switch(), 45)));
+        add(Tier::Quick, format!("shallow.{}", pc.clone().partial().feed_switch().tag()), d, 600, 150, Box::new(t_liq(pc.clone().partial().feed_switch(), 5)));
         add(Tier::Quick, format!("deep.{}", pc.clone().paused().tag()), d, 400, 150, Box::new(t_liq(pc.clone().paused(), 45)));
         add(Tier::Quick, format!("shallow.{}", pc.clone().fees().tag()), d, 600, 150, Box::new(t_liq(pc.clone().fees(), 5)));
         add(Tier::Quick, format!("shallow.{}", pc.clone().native().partial().tag()), d, 600, 150, Box::new(t_liq(pc.clone().native().partial(), 5)));
